@@ -26,7 +26,7 @@ TYPES = {
     'string': dict(opts={'type': 'string', 'constraints': {'maxLength': 3}}, valid=['ab', 'abc', 'a'], invalid=['abcd', 'toolong']),
     'array': dict(opts={'type': 'array'}, valid=['[1,2]', '[]', [1]], invalid=['{"a":1}', '[1,']),
 }
-POLICIES = ['raise', 'drop', 'ignore', 'clear', 'custom4-keep', 'custom4-drop', 'custom5-keep', 'custom5-by-field']
+POLICIES = ['raise', 'drop', 'ignore', 'clear', 'custom4-keep', 'custom4-drop', 'custom5-keep', 'custom5-by-field', 'custom5-default']
 # validate() only: the three checked fields share a type but differ in constraints/options; the same lexical value is valid
 # for one field and invalid for another (cells of one row are equal on purpose)
 MIXED = {
@@ -93,6 +93,11 @@ def build(case, log):
         # the two resources differ in which fields the name pattern selects (f2 is called h2 in the first one)
         ofields = [dict(f, name='h2') if f['name'] == 'f2' else f for f in copy.deepcopy(fields)]
         other_rows = [{('h2' if k == 'f2' else k): v for k, v in r.items()} for r in other_rows]
+    if case.get('nomatch'):
+        # no field of the first resource matches the name pattern; one of its own columns holds a value its schema does not allow
+        ofields = [{'name': 'id', 'type': 'integer', 'format': 'default'}, {'name': 'q', 'type': 'integer', 'format': 'default'},
+                   {'name': 'g', 'type': 'string', 'format': 'default'}]
+        other_rows = [{'id': 100, 'q': 'not-a-number', 'g': 'keep'}, {'id': 101, 'q': 5, 'g': 'keep'}]
     if case.get('missing'):
         # the table declares its own missing-value tokens; such a cell is null, not an error
         for rws in (rows, other_rows):
@@ -120,8 +125,12 @@ def build(case, log):
         # drop the row when f1 or f2 is bad, keep it for any other field
         log.append([res_name, row.get('id'), i, field.name if field is not None else None])
         return field is None or field.name not in ('f1', 'f2')
+    def handler5_default(res_name, row, i, e, field=None):
+        # the documented five-parameter form, its last parameter spelled with a default; same verdicts as custom5-by-field
+        log.append([res_name, row.get('id'), i, field.name if field is not None else None])
+        return field is None or field.name not in ('f1', 'f2')
     sv = core.dataflows.base.schema_validator
-    on_error = {'raise': None, 'drop': sv.drop, 'ignore': sv.ignore, 'clear': sv.clear, 'custom4-keep': handler4(True),
+    on_error = {'custom5-default': handler5_default, 'raise': None, 'drop': sv.drop, 'ignore': sv.ignore, 'clear': sv.clear, 'custom4-keep': handler4(True),
                 'custom4-drop': handler4(False), 'custom5-keep': handler5, 'custom5-by-field': handler5_by_field}[policy]
     kw = {}
     if on_error is not None:
@@ -179,7 +188,7 @@ def model(case, rows, resname):
                 if policy == 'raise':
                     return {'raise': (i, row['id']), 'out': None, 'calls': calls}
                 calls.append([resname, row['id'], i, f if policy.startswith('custom5') else None])
-                if policy in ('drop', 'custom4-drop') or (policy == 'custom5-by-field' and f in ('f1', 'f2')):
+                if policy in ('drop', 'custom4-drop') or (policy in ('custom5-by-field', 'custom5-default') and f in ('f1', 'f2')):
                     keep = False          # a row is dropped as soon as one verdict says so
                 elif policy == 'clear':
                     r[f] = None
@@ -318,6 +327,8 @@ def cases(tier):
                 out.append({'via': 'set_type', 'type': tname, 'policy': pol, 'pattern': pat, 'name': ['f.', True], 'transform': True})
                 out.append({'via': 'validate', 'type': tname, 'policy': pol, 'pattern': pat, 'resources': 't'})
                 out.append({'via': 'validate', 'type': tname, 'policy': pol, 'pattern': pat, 'default_res': True})
+                if len(pat) == 1:
+                    out.append({'via': 'set_type', 'type': tname, 'policy': pol, 'pattern': pat, 'name': ['f.', True], 'resources': None, 'nomatch': True})
                 if pol != 'raise' and len(pat) == 1:
                     # the same step object executed a second time must do the same again
                     out.append({'via': 'set_type', 'type': tname, 'policy': pol, 'pattern': pat, 'name': ['f.', True], 'twice': True})
